@@ -67,6 +67,15 @@ fn ensure_length(
     }
 }
 
+/// Read one `(field_type: u16, field_size: u32, field_value: [u8; field_size])` record from the start of `data`,
+/// or `None` if the data ends first.
+fn read_field(data: &[u8]) -> Option<(u16, u32, &[u8])> {
+    let field_type = LittleEndian::read_u16(data.get(0..2)?);
+    let field_size = LittleEndian::read_u32(data.get(2..6)?);
+    let field_value = data.get(6..6usize.checked_add(field_size as usize)?)?;
+    Some((field_type, field_size, field_value))
+}
+
 fn entry_name(field_type: u16) -> &'static str {
     match field_type {
         0x0004 => "Title",
@@ -111,9 +120,7 @@ fn parse_groups(
     let mut num_groups = 0; // the total number of parsed groups
     while num_groups < header_num_groups as usize {
         // Read group TLV
-        let field_type = LittleEndian::read_u16(&data[0..]);
-        let field_size = LittleEndian::read_u32(&data[2..]);
-        let field_value = &data[6..6 + field_size as usize];
+        let (field_type, field_size, field_value) = read_field(data).ok_or(DatabaseIntegrityError::IncompleteKDBGroup)?;
 
         match field_type {
             0x0000 => {} // KeePass ignores this field type
@@ -200,9 +207,7 @@ fn parse_entries(
     let mut num_entries = 0;
     while num_entries < header_num_entries {
         // Read entry TLV
-        let field_type = LittleEndian::read_u16(&data[0..]);
-        let field_size = LittleEndian::read_u32(&data[2..]);
-        let field_value = &data[6..6 + field_size as usize];
+        let (field_type, field_size, field_value) = read_field(data).ok_or(DatabaseIntegrityError::IncompleteKDBEntry)?;
 
         match field_type {
             0x0000 => {} // KeePass ignores this field type
@@ -304,8 +309,11 @@ pub(crate) fn parse_kdb(data: &[u8], db_key: &DatabaseKey) -> Result<Database, D
     let key_elements = db_key.get_key_elements()?;
     let key_elements: Vec<&[u8]> = key_elements.iter().map(|v| &v[..]).collect();
     let composite_key = if key_elements.len() == 1 {
-        let key_element: [u8; 32] = key_elements[0].try_into().unwrap();
-        GenericArray::from(key_element) // single pass of SHA256, already done before the call to parse()
+        // single pass of SHA256, already done before the call to parse(); a key file may hold a key of another size
+        let key_element: [u8; 32] = key_elements[0]
+            .try_into()
+            .map_err(|_| DatabaseKeyError::IncorrectKey)?;
+        GenericArray::from(key_element)
     } else {
         calculate_sha256(&key_elements)? // second pass of SHA256
     };
@@ -333,8 +341,12 @@ pub(crate) fn parse_kdb(data: &[u8], db_key: &DatabaseKey) -> Result<Database, D
     let payload_padded = outer_cipher_config
         .get_cipher(&master_key, header.encryption_iv.as_ref())?
         .decrypt(payload_encrypted)?;
-    let padlen = payload_padded[payload_padded.len() - 1] as usize;
-    let payload = &payload_padded[..payload_padded.len() - padlen];
+    // a wrong key may decrypt to anything, including an empty payload or an impossible padding length
+    let payload = payload_padded
+        .last()
+        .and_then(|padlen| payload_padded.len().checked_sub(*padlen as usize))
+        .map(|len| &payload_padded[..len])
+        .ok_or(DatabaseKeyError::IncorrectKey)?;
 
     // Check if we decrypted correctly
     let hash = calculate_sha256(&[&payload])?;
